@@ -105,6 +105,20 @@ impl AsyncFileSystem for AsyncAltrootFS {
         }
         self.path(src)?.copy_file(&self.path(dest)?).await
     }
+
+    async fn move_file(&self, src: &str, dest: &str) -> VfsResult<()> {
+        if dest.is_empty() {
+            return Err(VfsErrorKind::NotSupported.into());
+        }
+        self.path(src)?.move_file(&self.path(dest)?).await
+    }
+
+    async fn move_dir(&self, src: &str, dest: &str) -> VfsResult<()> {
+        if dest.is_empty() {
+            return Err(VfsErrorKind::NotSupported.into());
+        }
+        self.path(src)?.move_dir(&self.path(dest)?).await
+    }
 }
 
 #[cfg(test)]
